@@ -203,6 +203,34 @@ def empty_contract(kind):
 for kind in ("filtered", "AtomArray(0)", "AtomArrayStack(2, 0)"):
     R.check("residue / chain views of an array without atoms", f"empty {kind}", {"array": kind}, lambda kind=kind: empty_contract(kind))
 
+def no_such_atom_contract(rows, extra, stack=False):
+    """an index that names no atom of the array (n, n + 1, ... or a negative one, which the functions document as
+    unsupported) has no residue and no chain: the per-atom recomputation has no answer for it, so each view
+    refuses the request instead of attributing the index to some segment"""
+    a = build(rows)
+    if stack:
+        a = as_stack(a)
+    n = len(rows)
+    for bad in (n, n + extra, -1):
+        for idx in ([bad], list(range(n)) + [bad], [bad] + list(range(n))):
+            for fn in (struc.get_residue_starts_for, struc.get_residue_positions, struc.get_residue_masks,
+                       struc.get_chain_starts_for, struc.get_chain_positions, struc.get_chain_masks):
+                try:
+                    got = fn(a, np.array(idx))
+                except (ValueError, IndexError):
+                    continue
+                except Exception as e:
+                    return f"{fn.__name__}(array of {n} atoms, {idx}) raised {type(e).__name__}: {e}"
+                return f"{fn.__name__}(array of {n} atoms, {idx}) = {np.asarray(got).tolist()}: index {bad} names no atom"
+    return None
+
+
+for n in range(1, 4):
+    for rows in itertools.product(ROWS[:3], repeat=n):
+        for stack in (False, True):
+            R.check("residue views == per-atom recomputation", "index without atom", {"rows": list(rows), "extra": 1 + n, "stack": stack},
+                    lambda rows=rows, n=n, stack=stack: no_such_atom_contract(list(rows), 1 + n, stack))
+
 maxn = 5 if R.thorough else 4
 for n in range(1, maxn + 1):
     for rows in itertools.product(ROWS, repeat=n):
